@@ -8,7 +8,7 @@ from fractions import Fraction
 from common import setup_path
 
 setup_path()
-SIZES = [4, 6.5, 9, 10.5, 12, 18, 24, 36, 48]
+SIZES = [4, 6, 6.5, 7, 7.75, 9, 10, 10.5, 10.75, 12, 18, 24, 36, 48]    # multiples of 0.25 pt; several share their integer part
 DPIS = [36, 72, 96, 150, 300, 600]
 FONT_NAMES = ["Times New Roman", "Times New Roman Greek", "Arial Greek", "Arial", "Helvetica", "Calibri", "Georgia", "Cambria", "Courier New", "Symbol"]
 POOLS = {"ascii": [chr(c) for c in range(32, 127)], "latin1": [chr(c) for c in range(0xA1, 0x100) if c != 0xAD],
@@ -67,7 +67,7 @@ def run_one(item):
         if get_string_width(text, font=font, font_size=size) != get_string_width(text, font=font, font_size=size, unit="in", dpi=72.0):
             c["ulp_in"] = 10**6
         s2 = item.get("size2") or rng.choice([s for s in SIZES if s != size])
-        c["s1"], c["s2"] = int(round(size * 2)), int(round(s2 * 2))
+        c["s1"], c["s2"] = int(round(size * 4)), int(round(s2 * 4))     # exact: sizes are multiples of a quarter point
         c["w1"] = ev[-1]["w64"]
         c["w2"] = int(round(get_string_width(text, font=font, font_size=s2, unit="px") * 64))
     except Exception as ex:  # noqa
